@@ -107,11 +107,29 @@ def check_C16(res):
     texts.append('3 1 -1\n3 1=1 2 0\n0\n"a" "b" "c" "t"\n')
     for n in (255, 256, 257):
         texts.append('%d 1\n%d %d 1 0\n0\n%s\n"t"\n' % (n, n, n, ' '.join('"c%d"' % i for i in range(1, n + 1))))
+    # option lists: every [tie ...] / [withdrawn ...] / [undeclared ...] list of 2..4 entries over ids 0..4 for 3 candidates
+    # (repeats, omissions, out-of-range ids), by number and through nicknames
+    import itertools as _it
+    targeted = []
+    for k in (2, 3, 4):
+        for ids in _it.product('01234', repeat=k):
+            targeted.append('3 2 [tie %s] 4 1 2 0 2 3 0 0 "a" "b" "c" "t"' % ' '.join(ids))
+    for ids in _it.product(['a', 'b', 'c', '3', 'd'], repeat=3):
+        targeted.append('3 2 [nick a b c] [tie %s] 4 a b 0 2 c 0 0 "A" "B" "C" "t"' % ' '.join(ids))
+    for opt in ('withdrawn', 'undeclared'):
+        for k in (1, 2, 3):
+            for ids in _it.product('01234', repeat=k):
+                targeted.append('3 1 [%s %s] 4 1 2 0 2 3 0 0 "a" "b" "c" "t"' % (opt, ' '.join(ids)))
+    for nk in _it.product(['a', 'b', 'a b', '1', '"a"'], repeat=3):
+        targeted.append('3 2 [nick %s] 4 1 2 0 0 "A" "B" "C" "t"' % ' '.join(nk))
+    rng.shuffle(targeted)
+    targeted = targeted[:600 if res.tier == 'quick' else len(targeted)]
     for _ in range(6000 if res.tier == 'quick' else 100000):
         k = rng.randint(1, 14)
         texts.append(' '.join(rng.choice(TOKENS) for _ in range(k)))
     texts += ['', ' ', '\n', '0', '0 0', '1', '1 1 0 "a" "t"', '1 1 1 1 0 0 "a" "t"']
     rng.shuffle(texts)
+    texts = targeted + texts        # the targeted option lists first: they are few and cheap
     for s in texts:
         if time.time() - t0 > budget:
             break
